@@ -17,11 +17,14 @@ def dyadic_hp(algo):
             lr_actor=RLParameter(min=2.0 ** -12, max=2.0 ** -4, shrink_factor=0.5, grow_factor=2.0),
             lr_critic=RLParameter(min=2.0 ** -12, max=2.0 ** -5, shrink_factor=0.25, grow_factor=4.0),
             batch_size=RLParameter(min=4, max=16, shrink_factor=0.75, grow_factor=1.5, dtype=int),
-            learn_step=RLParameter(min=1, max=8, shrink_factor=0.5, grow_factor=2.0, dtype=int))
+            learn_step=RLParameter(min=1, max=8, shrink_factor=0.5, grow_factor=2.0, dtype=int),
+            gamma=RLParameter(min=0.5, max=1.0, shrink_factor=1.125, grow_factor=0.875))      # unusual but legitimate factors
+    ls = (512, 4096) if algo in ("PPO", "IPPO") else (1, 8)
     return HyperparameterConfig(
         lr=RLParameter(min=2.0 ** -12, max=2.0 ** -4, shrink_factor=0.5, grow_factor=2.0),
         batch_size=RLParameter(min=4, max=16, shrink_factor=0.75, grow_factor=1.5, dtype=int),
-        learn_step=RLParameter(min=1, max=8, shrink_factor=0.5, grow_factor=2.0, dtype=int))
+        learn_step=RLParameter(min=ls[0], max=ls[1], shrink_factor=0.5, grow_factor=2.0, dtype=int),
+        gamma=RLParameter(min=0.5, max=1.0, shrink_factor=1.125, grow_factor=0.875))
 
 
 def default_hp(algo):
@@ -44,6 +47,7 @@ def run(algo, NA, ops, exact=True, seed=0, shared=True, eq_lr=False):
     if exact:
         same = 2.0 ** -8          # eq_lr: the very same float object for both (lr = 1e-3; Algo(lr_actor=lr, lr_critic=lr))
         lrkw = dict(lr_actor=same, lr_critic=(same if eq_lr else 2.0 ** -7)) if algo in ("DDPG", "TD3", "MADDPG", "MATD3") else dict(lr=2.0 ** -8)
+        lrkw["gamma"] = 0.75
     pop = [zoo.make_agent(algo, "vector", seed=seed + i, index=i, hp=(hp if shared else mk(algo)), **lrkw) for i in range(NA)]
     names = list(pop[0].registry.hp_config.names())
     def intended(opt_name):
@@ -96,6 +100,11 @@ def run(algo, NA, ops, exact=True, seed=0, shared=True, eq_lr=False):
                 pop[:] = out
                 e["hs"] = [names.index(x.mut) + 1 if x.mut in names else 0 for x in pop]
                 changed = list(range(NA))
+            elif op[0] == "learn":
+                a = op[1] - 1
+                zoo.learn(pop[a], algo, op[2])          # optimizer state becomes non-empty before later mutations
+                e["op"] = "noop"
+                changed = []
             elif op[0] == "copy":
                 a, c = op[1] - 1, op[2] - 1
                 pop[c] = pop[a].clone(index=pop[c].index)
@@ -109,7 +118,7 @@ def run(algo, NA, ops, exact=True, seed=0, shared=True, eq_lr=False):
                 e["op"] = "facts"
                 oth = all(after[b] == before[b] for b in range(NA) if b not in changed)
                 one, own, rng_ok, isint, lre = True, True, True, True, True
-                if op[0] != "copy":
+                if op[0] not in ("copy", "learn"):
                     for a_ in changed:
                         diff = [g for g in range(len(names)) if after[a_][g] != before[a_][g]]
                         m = pop[a_].mut
